@@ -3105,6 +3105,96 @@ def gen_printer_tables():
 
 
 
+# ----------------------------------------------------------------------------------------------
+# C18 (printed attribute list of a transcript line): the skip lists of GeneInfo.set_gene_attributes
+
+def _skip_list_of(loop, var):
+    """the literal list of `if <var> in [..]: continue` that opens the body of `for <var> in X.attributes.keys():`"""
+    if not (isinstance(loop, ast.For) and isinstance(loop.target, ast.Name) and loop.target.id == var and loop.body):
+        raise TranslationError("set_gene_attributes: expected a loop over attribute names")
+    first = loop.body[0]
+    if not (isinstance(first, ast.If) and isinstance(first.test, ast.Compare) and len(first.test.ops) == 1
+            and isinstance(first.test.ops[0], ast.In) and isinstance(first.test.left, ast.Name) and first.test.left.id == var
+            and isinstance(first.test.comparators[0], (ast.List, ast.Tuple, ast.Set))
+            and len(first.body) == 1 and isinstance(first.body[0], ast.Continue) and not first.orelse):
+        raise TranslationError("set_gene_attributes: the attribute loop does not start with `if attr in [...]: continue`")
+    vals = []
+    for e in first.test.comparators[0].elts:
+        if not (isinstance(e, ast.Constant) and isinstance(e.value, str)):
+            raise TranslationError("set_gene_attributes: non-literal entry in a skip list")
+        vals.append(e.value)
+    # the rest of the body must be the guarded copy `if X.attributes[attr]: self.feature_attributes[..] += FORMAT % (attr, X.attributes[attr][0])`
+    rest = loop.body[1:]
+    if not (len(rest) == 1 and isinstance(rest[0], ast.If) and not rest[0].orelse and len(rest[0].body) == 1
+            and isinstance(rest[0].body[0], ast.AugAssign) and isinstance(rest[0].body[0].op, ast.Add)):
+        raise TranslationError("set_gene_attributes: unexpected statements after the skip test")
+    aug = rest[0].body[0]
+    if not (isinstance(aug.value, ast.BinOp) and isinstance(aug.value.op, ast.Mod) and isinstance(aug.value.left, ast.Constant)
+            and isinstance(aug.value.right, ast.Tuple) and len(aug.value.right.elts) == 2
+            and isinstance(aug.value.right.elts[0], ast.Name) and aug.value.right.elts[0].id == var
+            and isinstance(aug.value.right.elts[1], ast.Subscript)
+            and isinstance(aug.value.right.elts[1].slice, ast.Constant) and aug.value.right.elts[1].slice.value == 0):
+        raise TranslationError("set_gene_attributes: the copied text is not FORMAT % (attr, attributes[attr][0])")
+    return vals, aug.value.left.value
+
+
+def gen_gene_attributes():
+    """Gen/GeneAttributes.lean: which attributes of a reference gene / transcript are NOT copied to the output lines
+    (`GeneInfo.set_gene_attributes`), the key words `Canonical` (IOSupport.add_canonical_info_for_model) and `exons`
+    (GFFPrinter.dump)"""
+    gi = parse("src/gene_info.py")
+    fn = find_def(gi, "set_gene_attributes", cls="GeneInfo")
+    outer = [n for n in fn.body if isinstance(n, ast.For)]
+    if len(outer) != 1:
+        raise TranslationError("set_gene_attributes: expected one loop over gene_db_list")
+    loops = [n for n in outer[0].body if isinstance(n, ast.For)]
+    if len(loops) != 2:
+        raise TranslationError("set_gene_attributes: expected the gene attribute loop and the transcript loop")
+    gene_skip, fmt_g = _skip_list_of(loops[0], "attr")
+    tl_ = [n for n in loops[1].body if isinstance(n, ast.For)]
+    if len(tl_) != 2 or loops[1].body != tl_:
+        raise TranslationError("set_gene_attributes: the transcript loop must contain the attribute loop and the exon loop only")
+    tr_skip, fmt_t = _skip_list_of(tl_[0], "attr")
+    ex_loops = [n for n in tl_[1].body if isinstance(n, ast.For)]
+    if len(ex_loops) != 1:
+        raise TranslationError("set_gene_attributes: exon loop without an attribute loop")
+    ex_skip, fmt_e = _skip_list_of(ex_loops[0], "attr")
+    if not (fmt_g == fmt_t == fmt_e == '%s "%s"; '):
+        raise TranslationError("set_gene_attributes: copied attribute format changed: %r %r %r" % (fmt_g, fmt_t, fmt_e))
+    # key word of the canonical attribute
+    aio = parse("src/assignment_io.py")
+    f2 = find_def(aio, "add_canonical_info_for_model", cls="IOSupport")
+    kw = [n.value.value for n in f2.body if isinstance(n, ast.Assign) and isinstance(n.targets[0], ast.Name)
+          and n.targets[0].id == "key_word" and isinstance(n.value, ast.Constant)]
+    if len(kw) != 1 or not isinstance(kw[0], str):
+        raise TranslationError("add_canonical_info_for_model: key_word literal not found")
+    # key word of the exon count attribute: model.check_additional("<k>") / add_additional_attribute("<k>", str(len(model.exon_blocks)))
+    tp = parse("src/transcript_printer.py")
+    f3 = find_def(tp, "dump", cls="GFFPrinter")
+    ek = []
+    for n in ast.walk(f3):
+        if isinstance(n, ast.Call) and isinstance(n.func, ast.Attribute) and n.func.attr == "check_additional" \
+                and len(n.args) == 1 and isinstance(n.args[0], ast.Constant):
+            ek.append(n.args[0].value)
+    if len(ek) != 1:
+        raise TranslationError("GFFPrinter.dump: expected one check_additional(<literal>)")
+    info = {"gene_skip": gene_skip, "transcript_skip": tr_skip, "exon_skip": ex_skip, "canonical_key": kw[0], "exons_key": ek[0]}
+    ll = lambda xs: "[" + ", ".join(_lean_str(x) for x in xs) + "]"
+    out = ["-- GENERATED by harness/translate.py -- do not edit", "namespace IsoVerif.Gen", "",
+           "/-- `GeneInfo.set_gene_attributes`: attributes of a reference gene that are not copied to the gene line -/",
+           "def GENE_ATTR_SKIP : List String := " + ll(gene_skip),
+           "/-- ... of a reference transcript that are not copied to the transcript line -/",
+           "def TRANSCRIPT_ATTR_SKIP : List String := " + ll(tr_skip),
+           "/-- ... that are not recorded for the exon lines -/",
+           "def EXON_ATTR_SKIP : List String := " + ll(ex_skip),
+           "/-- `key_word` of `IOSupport.add_canonical_info_for_model` -/",
+           "def CANONICAL_KEY : String := " + _lean_str(kw[0]),
+           "/-- the attribute `GFFPrinter.dump` adds when the model does not carry it -/",
+           "def EXONS_KEY : String := " + _lean_str(ek[0]),
+           "\nend IsoVerif.Gen\n"]
+    return "\n".join(out), info
+
+
 GENERATORS = [("Prims", gen_prims), ("Enums", gen_enums), ("EventClasses", gen_event_classes),
               ("Strategies", gen_strategies), ("Constants", gen_constants), ("SharedState", gen_shared_state),
               ("SetSites", gen_set_sites),            # C06
@@ -3120,6 +3210,7 @@ GENERATORS = [("Prims", gen_prims), ("Enums", gen_enums), ("EventClasses", gen_e
               ("ComparatorTables", gen_comparator_tables),     # C01 (compare_junctions)
               ("GtfFormat", gen_gtf_format),          # C03 (text of the GTF lines)
               ("PrinterTables", gen_printer_tables),           # C15 / C05 / C08 (read-level printers)
+              ("GeneAttributes", gen_gene_attributes),         # C18 (attribute list of a printed transcript line)
               ]
 
 
